@@ -227,7 +227,7 @@ def run(ctx):
     pump_res = ctx.harness(BIN, ["pumpreplay"], stdin_path=pump_all, out_name="pump_res.jsonl")
 
     # ------------------------------------------------------------------ 3. inputs for the parse runs
-    stride = 20 if quick else 1
+    stride = 20 if quick else 3
     mut = ctx.tlc("Mutations", defines={"Stride": str(stride), "Offset": str(ctx.seed % stride)}, tag="mutations", workers=4)
     # composed mutations (two or three faults), seeded.  In simulation mode TLC evaluates Emit on every candidate
     # successor (tens of thousands per state), so a few walks print plenty; a seeded sample of them is taken.
